@@ -110,9 +110,7 @@ func (s *sys) apply(op string) bool {
 		}
 		in.valid = false
 	case op == "stats":
-		if s.shutdown {
-			return false
-		}
+		// also after shutdown: the statistics reporter is a periodic task that does not know about it
 		s.h.ReportBackendStats()
 	case op == "shutdown":
 		if s.shutdown {
